@@ -28,7 +28,7 @@ def _run(case):
             n = f"f{i}.md"
             open(os.path.join(d, n), "wb").write(t.encode("utf-8"))
             names.append(n)
-        code, out, err = impl.run_cli(cfg + [mode] + names, cwd=d)
+        code, out, err = impl.run_cli(list(case[3]) + cfg + [mode] + names if len(case) > 3 else cfg + [mode] + names, cwd=d)
         after = [open(os.path.join(d, n), "rb").read().decode("utf-8") for n in names]
     per = {n: [l for l in out.split("\n") if l.startswith(n + ":") or l == f"Fixed: {n}"] for n in names}
     perr = {n: [l for l in err.split("\n") if l.startswith(n + ":")] for n in names}
@@ -134,6 +134,31 @@ def run(ctx):
                               group="history-" + mode + "-" + what.replace(" ", "-"))
                 break
     ctx.sample({"history": list(cases[7][0]), "mode": cases[7][1], "exit": res[7][0]})
+    # ---- histories that contain a file on which processing fails, under --continue-on-error: the files behind it are processed as alone
+    failing = ["    a\n```\nx\n```\n", CRASH_DOC, "1. one\n3.  three\nx  \n" if False else "   >    1.    >\n   >            item"]
+    follow = ["a   \nb\n", "a\tb\n", "no newline at end", "#  a\n", "1. a\n1. b\n3. c\n", "\n\ntext\n", "- a\n\n* b\n", "text\n"] + pool[:8]
+    ccases = [((f, d), m, False, ("--continue-on-error",)) for f in failing for d in follow for m in modes]
+    ccases += [((f, "text\n", d), m, False, ("--continue-on-error",)) for f in failing[:1] for d in follow[:6] for m in modes]
+    need = {(d, m, f"f{i}.md") for (h, m, _o, _x) in ccases for i, d in enumerate(h, 1) if i > 1}
+    need = [k for k in need if k not in alone]
+    for c, r in zip(need, impl.pmap(_alone, need, chunksize=8)):
+        alone[c] = r
+    for case, (code, per, perr, after, generic_err) in zip(ccases, impl.pmap(_run, ccases, chunksize=8)):
+        h, mode = case[0], case[1]
+        ctx.count(1, f"{mode}/continue-on-error/files{len(h)}")
+        ctx.seen([list(h), mode, "coe"])
+        for i, d in enumerate(h, 1):
+            if i == 1:
+                continue
+            n = f"f{i}.md"
+            a = alone[(d, mode, n)]
+            if a[4]:
+                continue
+            if (per[n], perr[n], after[i - 1]) != (a[1], a[2], a[3]):
+                what = "output" if per[n] != a[1] else "pragma errors" if perr[n] != a[2] else "content"
+                ctx.violation("history", {"before": list(h[:i - 1]), "doc": d, "mode": mode, "options": ["--continue-on-error"]},
+                              f"{what} for the file differs from processing it alone: {per[n][:3] if what != 'content' else after[i-1]!r} vs {a[1][:3] if what != 'content' else a[3]!r}",
+                              group="history-coe-" + mode + "-" + what.replace(" ", "-"))
     apairs = pairs if ctx.tier == "thorough" else rng.sample(pairs, 250)
     for (a, b), (second, fresh) in zip(apairs, impl.pmap(_api_reuse, apairs, chunksize=16)):
         ctx.count(1, "api-reuse")
@@ -152,7 +177,7 @@ def run(ctx):
     ]
     return ctx.finish(
         level="proof",
-        rule=f"pool of {len(pool)} documents (15 chosen for dense failures, pragmas, link definitions, list/heading state + the shared pool); all ordered pairs incl. a document with itself, random triples; scan and fix; all ordered pairs of a 17-document pool under a second configuration (md024 siblings_only, md004 sublist, md002 and md043 enabled); a reused API object after another document and after a call that raised (missing path, undecodable file, parser failure, failing fix/list); quick = 29-document pool; non-trivial = every history; distinct by (history, mode)",
+        rule=f"pool of {len(pool)} documents (15 chosen for dense failures, pragmas, link definitions, list/heading state + the shared pool); all ordered pairs incl. a document with itself, random triples; scan and fix; all ordered pairs of a 17-document pool under a second configuration (md024 siblings_only, md004 sublist, md002 and md043 enabled); a reused API object after another document and after a call that raised (missing path, undecodable file, parser failure, failing fix/list); histories behind a file whose processing fails (rule conflict, parser failure, rule failure) under --continue-on-error; quick = 29-document pool; non-trivial = every history; distinct by (history, mode)",
         assumptions=["the comparison of a history stops at the first file that ends the run with an application error (C15)",
                      "the eight reviewed unreset fields and everything the syntactic field analysis cannot see are covered by the histories only"],
     )
